@@ -166,3 +166,15 @@ def model_run(cases: list, reg: Registry) -> list:
             HYPS['failed'] += 1
         out.append((v[1][0] == 'true', [(c == 'true', e) for c, e in v[1][2:]]))
     return out
+
+
+def model_cause(cases: list, reg: Registry) -> list:
+    """cases = [(is_random, [draws], hint_model, obj_model)] -> [[(found, reads, bound) per draw] | None]:
+    the instrumented violation finder `causeRC` (Lemmas/BearErrCost.lean)."""
+    ws = sexp(reg.world_sexp())
+    lines = [f'(cause {ws} {"true" if rnd else "false"} {sexp(list(draws))} {sexp(hm)} {sexp(om)})' for rnd, draws, hm, om in cases]
+    out = []
+    for line in lean_driver(lines, 'Bear', exe='beardriver'):
+        v = parse_sexp(line)
+        out.append(None if v[0] != 'ok' else [(f == 'true', int(n), int(b)) for f, n, b in v[1]])
+    return out
